@@ -2,7 +2,7 @@
    the weak fixpoint form, refutation witnesses. *)
 From Coq Require Import List Arith Bool PeanoNat Lia.
 Import ListNotations.
-Require Import TL.Model.Core TL.Model.CoreC01.
+Require Import TL.Model.Core TL.Model.CoreC01 TL.Proofs.CoreHash.
 
 (* ------------------------------------------------------------------ results: "more fuel" order *)
 Definition le_res {A} (a b : res A) : Prop := a = OutOfFuel \/ a = b.
@@ -31,6 +31,14 @@ Proof.
   - apply le_res_refl.
   - apply le_bind; [apply H |]. intros y. apply le_bind; [exact IH |]. intros; apply le_res_refl.
 Qed.
+
+Lemma le_hashing rt {A B} (key : B -> pv) (f g : A -> res B) x :
+  le_res (f x) (g x) -> le_res (hashing rt key f x) (hashing rt key g x).
+Proof. intros H. unfold hashing. apply le_bind; [exact H | intros; apply le_res_refl]. Qed.
+
+Lemma le_elem_conv rt k (f g : pv -> res pv) x :
+  le_res (f x) (g x) -> le_res (elem_conv rt k f x) (elem_conv rt k g x).
+Proof. intros H. unfold elem_conv. destruct (hashes k); [apply le_hashing; exact H | exact H]. Qed.
 
 Lemma le_fold {A B} (f g : res B -> A -> res B) (l : list A) :
   (forall acc acc' x, le_res acc acc' -> le_res (f acc x) (g acc' x)) ->
@@ -89,11 +97,11 @@ Proof.
      | TNone => none_u rt x
      | TSeq k a =>
          bind (load rt x) (fun d => bind (itervalues rt d) (fun vs =>
-         bind (mapM (unm rt E (S n) a) vs) (fun rs => construct_seq rt k rs)))
+         bind (mapM (elem_conv rt k (unm rt E (S n) a)) vs) (fun rs => construct_seq rt k rs)))
      | TMap k kt vt =>
          bind (load rt x) (fun d => bind (iteritems rt E d) (fun kvs =>
-         bind (mapM (fun kv => bind (unm rt E (S n) kt (fst kv)) (fun k' =>
-                               bind (unm rt E (S n) vt (snd kv)) (fun v' => Ok (k', v')))) kvs)
+         bind (mapM (hashing rt fst (fun kv => bind (unm rt E (S n) kt (fst kv)) (fun k' =>
+                               bind (unm rt E (S n) vt (snd kv)) (fun v' => Ok (k', v'))))) kvs)
               (fun rs => construct_map rt k rs)))
      | TTuple ts =>
          bind (load rt x) (fun d => bind (itervalues rt d) (fun vs =>
@@ -123,11 +131,11 @@ Proof.
   destruct t as [s| |k a|k kt vt|ts|ts|c|c|s|t'|i t'|i t'|i c|t'|t']; try apply le_res_refl; try apply IH.
   - apply le_bind; [apply le_res_refl |]; intros d.
     apply le_bind; [apply le_res_refl |]; intros vs.
-    apply le_bind; [apply le_mapM; intros; apply IH |]; intros; apply le_res_refl.
+    apply le_bind; [apply le_mapM; intros; apply le_elem_conv; apply IH |]; intros; apply le_res_refl.
   - apply le_bind; [apply le_res_refl |]; intros d.
     apply le_bind; [apply le_res_refl |]; intros vs.
     apply le_bind; [| intros; apply le_res_refl].
-    apply le_mapM; intros kv. apply le_bind; [apply IH |]; intros.
+    apply le_mapM; intros kv. apply le_hashing. apply le_bind; [apply IH |]; intros.
     apply le_bind; [apply IH |]; intros; apply le_res_refl.
   - apply le_bind; [apply le_res_refl |]; intros d.
     apply le_bind; [apply le_res_refl |]; intros vs.
@@ -150,8 +158,8 @@ Proof.
      | TSeq k a => bind (itervalues rt x) (fun vs => bind (mapM (mar rt E (S n) a) vs) (fun rs => Ok (PSeq KList rs)))
      | TMap k kt vt =>
          bind (iteritems rt E x) (fun kvs =>
-         bind (mapM (fun kv => bind (mar rt E (S n) kt (fst kv)) (fun k' =>
-                               bind (mar rt E (S n) vt (snd kv)) (fun v' => Ok (k', v')))) kvs)
+         bind (mapM (hashing rt fst (fun kv => bind (mar rt E (S n) kt (fst kv)) (fun k' =>
+                               bind (mar rt E (S n) vt (snd kv)) (fun v' => Ok (k', v'))))) kvs)
               (fun rs => construct_map rt KDict rs))
      | TTuple ts =>
          bind (itervalues rt x) (fun vs =>
@@ -183,7 +191,7 @@ Proof.
     apply le_bind; [apply le_mapM; intros; apply IH |]; intros; apply le_res_refl.
   - apply le_bind; [apply le_res_refl |]; intros vs.
     apply le_bind; [| intros; apply le_res_refl].
-    apply le_mapM; intros kv. apply le_bind; [apply IH |]; intros.
+    apply le_mapM; intros kv. apply le_hashing. apply le_bind; [apply IH |]; intros.
     apply le_bind; [apply IH |]; intros; apply le_res_refl.
   - apply le_bind; [apply le_res_refl |]; intros vs.
     apply le_bind; [apply le_mapM; intros; apply IH |]; intros; apply le_res_refl.
@@ -626,7 +634,7 @@ Proof.
       cbn [mar itervalues bind] in Hm.
       destruct (mapM (mar rt E n a) l) as [ws | | |] eqn:Hws; cbn [bind] in Hm; try discriminate.
       inversion Hm; subst w; clear Hm.
-      cbn [unm load is_scalar bind itervalues].
+      cbn [unm load is_scalar bind itervalues]. apply (proj2 (seq_step_ok_iff rt _ _ _ _)).
       rewrite (mapM_round (mar rt E n a) (unm rt E n a) l ws); [| | exact Hws].
       * cbn [bind]. unfold construct_seq.
         destruct k; try reflexivity;
@@ -642,14 +650,14 @@ Proof.
       apply andb_prop in Hv; destruct Hv as [Hk Hv].
       apply dictkind_eqb_eq in Hk; subst k0. apply negb_true_iff in Hh.
       apply andb_prop in Hg; destruct Hg as [Hg Hkeys].
-      cbn [mar iteritems bind] in Hm.
+      cbn [mar iteritems bind] in Hm. apply (proj1 (map_step_ok_iff rt _ _ _ _)) in Hm.
       destruct (mapM _ l) as [rs | | |] eqn:Hrs in Hm; cbn [bind] in Hm; try discriminate.
       unfold construct_map in Hm.
       destruct (existsb (fun kv => unhashable rt (fst kv)) rs); try discriminate.
       inversion Hm; subst w; clear Hm.
       rewrite (mapM_pair_fst _ _ _ _ Hrs) in Hkeys.
       rewrite (dict_of_nodup rt rs Hkeys).
-      cbn [unm load is_scalar bind iteritems].
+      cbn [unm load is_scalar bind iteritems]. apply (proj2 (map_step_ok_iff rt _ _ _ _)).
       rewrite (mapM_round (fun kv => bind (mar rt E n kt (fst kv)) (fun k' =>
                                bind (mar rt E n vt (snd kv)) (fun v' => Ok (k', v'))))
                           (fun kv => bind (unm rt E n kt (fst kv)) (fun k' =>
@@ -999,7 +1007,7 @@ Proof.
     destruct (mapM_fix (mar rt E n a) (unm rt E n a) l ws) as [l' [Hu Hm']]; [| exact Hws |].
     { intros x w Hin Hx. rewrite forallb_forall in Hv. exact (IH a x w (Hv x Hin) Hx). }
     exists (PSeq k l'). split.
-    + cbn [unm load is_scalar bind itervalues]. rewrite Hu. cbn [bind]. unfold construct_seq.
+    + cbn [unm load is_scalar bind itervalues]. apply (proj2 (seq_step_ok_iff rt _ _ _ _)). rewrite Hu. cbn [bind]. unfold construct_seq.
       destruct k; try reflexivity; rewrite Hu in Hset;
         (apply andb_prop in Hset; destruct Hset as [Hh Hd]; apply negb_true_iff in Hh; rewrite Hh;
          rewrite dedupe_nodup by exact Hd; reflexivity).
@@ -1008,7 +1016,7 @@ Proof.
     cbn [fix_ok] in Hv. destruct v as [a0 | f0 | k0 l | k0 l | c0 l | c0 l]; try discriminate.
     apply andb_prop in Hv; destruct Hv as [Hv Hkeys]. apply andb_prop in Hv; destruct Hv as [Hk Hv].
     apply dictkind_eqb_eq in Hk; subst k0.
-    cbn [mar iteritems bind] in Hm.
+    cbn [mar iteritems bind] in Hm. apply (proj1 (map_step_ok_iff rt _ _ _ _)) in Hm.
     destruct (mapM _ l) as [rs | | |] eqn:Hrs in Hm; cbn [bind] in Hm; try discriminate.
     unfold construct_map in Hm.
     destruct (existsb (fun kv => unhashable rt (fst kv)) rs) eqn:Hhw; try discriminate.
@@ -1032,9 +1040,9 @@ Proof.
     rewrite (mapM_pair_fst _ _ _ _ Hu) in Hkeys.
     apply andb_prop in Hkeys; destruct Hkeys as [Hh Hnd]. apply negb_true_iff in Hh.
     exists (PDict k l'). split.
-    + cbn [unm load is_scalar bind iteritems]. rewrite Hu. cbn [bind]. unfold construct_map.
+    + cbn [unm load is_scalar bind iteritems]. apply (proj2 (map_step_ok_iff rt _ _ _ _)). rewrite Hu. cbn [bind]. unfold construct_map.
       rewrite existsb_map_fst, Hh. rewrite (dict_of_nodup rt l' Hnd). reflexivity.
-    + cbn [mar iteritems bind]. rewrite Hm'. cbn [bind]. unfold construct_map. rewrite Hhw.
+    + cbn [mar iteritems bind]. apply (proj2 (map_step_ok_iff rt _ _ _ _)). rewrite Hm'. cbn [bind]. unfold construct_map. rewrite Hhw.
       rewrite (dict_of_nodup rt rs Hndw). reflexivity.
   - (* fixed tuple *)
     cbn [fix_ok] in Hv. destruct v as [a0 | f0 | k0 l | k0 l | c0 l | c0 l]; try discriminate.
